@@ -76,9 +76,26 @@ func init() {
 			fmt.Fprintf(&sb, "\ndef %s (%s : Int → Int) (%s : Int) : Int :=\n  %s\n", f.fn, f.prim, leanIdent(f.param), s)
 		}
 		// call orders
-		sb.WriteString("\ndef getCalls : List String := " + LeanStrList(CallSeq(FindFunc(byName["trie.go"], "trie", "Get"))) + "\n")
+		getCalls := CallSeq(FindFunc(byName["trie.go"], "trie", "Get"))
+		seekCalls := CallSeq(FindFunc(byName["iterator.go"], "Iterator", "Seek"))
+		has := func(xs []string, after, name string) bool {
+			seen := after == ""
+			for _, x := range xs {
+				if x == after {
+					seen = true
+				} else if seen && x == name {
+					return true
+				}
+			}
+			return false
+		}
+		// which variant of the two repaired functions the source has (fixes/C20-*.patch): the models
+		// follow these switches
+		fmt.Fprintf(&sb, "\n/-- `trie.Get` tests `!isEndOfNode(pos)` before taking a first label 0xff for the terminator -/\ndef getChecksEndOfNode : Bool := %v\n", has(getCalls, "labelVec.GetLabel", "tree.isEndOfNode"))
+		fmt.Fprintf(&sb, "\n/-- `Iterator.Seek` compares the landing key with the probe and steps once when it is smaller -/\ndef seekStepsToLowerBound : Bool := %v\n", has(seekCalls, "it.moveToRightMostKey", "bytes.Compare") && has(seekCalls, "bytes.Compare", "it.Next"))
+		sb.WriteString("\ndef getCalls : List String := " + LeanStrList(getCalls) + "\n")
 		sb.WriteString("\ndef buildNodesCalls : List String := " + LeanStrList(CallSeq(bn)) + "\n")
-		sb.WriteString("\ndef seekCalls : List String := " + LeanStrList(CallSeq(FindFunc(byName["iterator.go"], "Iterator", "Seek"))) + "\n")
+		sb.WriteString("\ndef seekCalls : List String := " + LeanStrList(seekCalls) + "\n")
 		sb.WriteString("\ndef searchCalls : List String := " + LeanStrList(CallSeq(FindFunc(byName["label_vector.go"], "labelVector", "Search"))) + "\n")
 		tb, err := parse("index/model/trie_bucket.go")
 		if err != nil {
